@@ -382,7 +382,8 @@ func generateOTPURL(kind string, param URLParam, extraParams map[string]string) 
 		return nil, ErrSecretRequired
 	}
 
-	label := url.PathEscape(fmt.Sprintf("%s:%s", param.Issuer, param.AccountName))
+	// URL.String escapes the path itself; escaping here as well would escape the label twice
+	label := fmt.Sprintf("%s:%s", param.Issuer, param.AccountName)
 
 	query := url.Values{}
 	query.Set("secret", param.Secret)
